@@ -337,3 +337,23 @@ reg("C18", c18_units,
     FS_ASSUME + ["paths are atoms: <root>/.ergo and Join(dir, name) are injective uninterpreted functions; os.MkdirAll succeeds",
                  "discovery: path spellings are enumerated (11), not symbolic strings; filepath.Join/Dir/Base/Abs are computed on those literals by the Go library itself; symlinks, .ergo being a regular file, and permission errors are outside the claim",
                  "read-only commands (list/show) use the same loadGraph -> getEventsPath path as the post-command read in these units"])
+
+
+# ---------------------------------------------------------------- C19
+def c19_units(tier):
+    hs = HSCMD + ["c19.go"]
+    f = {"loop": 24, "rec": 4, "only": "C19/", "stubs": "hasCycle=zzHasCycleSpec,topoSortTasks=zzTopoIdentityCut"}
+    b = "store of 3 items (any kinds, states, claims, epic membership obeying I1-I5, acyclic edges)"
+    return [
+        Unit("rows-all", hs, "zzC19_RowsAll_N3", f, note="CUT: topoSortTasks (sibling order) summarised as identity", bounds=b + "; list --all"),
+        Unit("rows-default", hs, "zzC19_RowsDefault_N3", f, note="CUT: topoSortTasks summarised", bounds=b + "; list (default view)"),
+        Unit("rows-ready", hs, "zzC19_RowsReady_N3", f, note="CUT: topoSortTasks summarised", bounds=b + "; list --ready"),
+        Unit("summary", hs, "zzC19_Summary_N3", f, bounds=b + "; the three scopes the summary line is computed over"),
+    ]
+
+
+reg("C19", c19_units,
+    "bounded symbolic model checking of the STRUCTURE of the human list: the node tree the renderer is given (real buildListRoots / buildTree / filterAndCollapseNodes / filterNodesByReady / derivedEpicState) holds every live item exactly once with --all, every active task exactly once by default, exactly the ready tasks with --ready, children under their own epic, two levels; the numbers behind the summary line (real computeStatsForTasks over the real scope filters) equal the tasks per bucket. One node = one row.",
+    ["NOT decided (byte level): that a row fits the terminal width, ends with the id in a fixed column, and is valid UTF-8 for every title / claimant / blocker text (formatTreeLine, truncateToWidth, abbreviate work on bytes and runes; the engine's byte mode did not reach them: see DESIGN); the empty-view sentences; the --epic focused view",
+     "CUT: topoSortTasks replaced by the identity (order of siblings is not claimed)",
+     "store invariants I1-I5 assumed (established by C06/C07/C14 steps)"])
